@@ -40,7 +40,7 @@ def _encode_ob(Tname):
         I.stubs[T.host_type._encode.__func__] = host_encode
         t0 = time.time()
         try:
-            out = I.run(dt.BitArrayType._encode.__func__, [T, [B.SBool(b) for b in bits]], glb=dict(vars(dt)))
+            out = I.run(getattr(dt.BitArrayType, '_real_encode', None) or dt.BitArrayType._encode.__func__, [T, [B.SBool(b) for b in bits]], glb=dict(vars(dt)))
         except B.EngineUnsupported as e:
             return {"status": "inconclusive", "why": f"source left Engine B's subset: {e}"}
         s = z3.Solver()
@@ -112,7 +112,7 @@ def _decode_ob(Tname):
 
             I.compare = compare
             try:
-                out = I.run(dt.BitArrayType._decode.__func__, [T, object()], glb=dict(vars(dt)))
+                out = I.run(getattr(dt.BitArrayType, '_real_decode', None) or dt.BitArrayType._decode.__func__, [T, object()], glb=dict(vars(dt)))
             except B.EngineUnsupported as e:
                 return {"status": "inconclusive", "why": f"source left Engine B's subset: {e}"}
             s = z3.Solver()
